@@ -1,27 +1,4 @@
-// @private (visibility stripped on load: these shims mention private extracted types)
-// Opaque stand-ins (ASSUMED, R2/R10): types whose internals are irrelevant to the unit that
-// includes this prelude.  Units that verify functions of these types extract the real
-// declarations instead and do not include this file.
-pub struct IoError { pub kind: u8 }
-
-#[verifier::external_body]
-pub struct Estimator { _p: core::marker::PhantomData<()> }
-impl Estimator {
-    #[verifier::external_body]
-    pub fn new(now: Instant) -> Estimator { unimplemented!() }
-    #[verifier::external_body]
-    pub fn record(&mut self, new_steps: u64, now: Instant) { unimplemented!() }
-    #[verifier::external_body]
-    pub fn reset(&mut self, now: Instant) { unimplemented!() }
-}
-
-#[verifier::external_body]
-pub struct ProgressDrawTarget { _p: core::marker::PhantomData<()> }
-impl ProgressDrawTarget {
-    #[verifier::external_body]
-    pub fn mark_zombie(&mut self) { unimplemented!() }
-}
-
+// @private
 // ProgressStyle: only the tab width and the custom-key trackers matter at BarState level.
 #[verifier::external_body]
 pub struct ProgressStyle { _p: core::marker::PhantomData<()> }
